@@ -211,25 +211,29 @@ def make_merge_judge(pid):
 
 MERGE_RULE = ('replica pairs derived from the ancestor root{e10, G1{e11, S1{}}, G2{}} by edit histories over the alphabet {edit entry + commit, '
               'uncommitted edit, add entry, add group, move entry, move group, delete entry + tombstone, delete group recursively with tombstones in '
-              'parent-first or child-first order, rename group, touch group}; logical clock with distinct seconds; all pairs of histories of length <= 1 '
-              '(exhaustive), plus random histories up to length 3x4 (quick: 2000, thorough: 20000) and, thorough only, all pairs of length 1x2 and 2x1; '
+              'parent-first or child-first order, rename group, touch group, set a field to one of two fixed values (reverts, identical edits)}; logical clock with distinct seconds, plus '
+              'deletions in the very second of a change of the same node; all pairs of histories of length <= 1 (exhaustive), deletion-heavy histories of length 3..5 (quick: 1500, thorough: 10000), '
+              'random histories up to length 3x4 (quick: 2000, thorough: 20000) and, thorough only, all pairs of length 1x2 and 2x1; '
               'each pair: merge, merge again, self-merge of the result, self-merge of the destination, under a 3 s watchdog; '
               'non-trivial = the merge reported an event, failed, or the source carries tombstones; distinct by hash of the two edit histories')
 MERGE_ASSUME = ['history items carry no history of their own (C17) and time stamps are whole seconds',
                 'content tokens = interned canonical dumps of every field other than uuid/times/history(/children)']
 for pid, txt, part in [
-    ('C13', 'Kernel-checked component idempotence (history union, entry merge, group merge). Global idempotence is validated by the exhaustive/randomised '
-            'enumeration on the real code and on the faithful model.',
-     ['C13_twice (global idempotence for all replica pairs) is stated but not proved; proved: component-level idempotence']),
+    ('C13', 'Kernel-checked: merge_self — for every well-formed database (root a group, pairwise distinct UUIDs, groups carry a modification time, no tombstone for a live node) '
+            'merging it with an identical copy returns Ok, no events, the same tree and the same tombstones; component idempotence (history union, entry merge, group merge). '
+            'Idempotence of a repeated merge of two different replicas is validated by the exhaustive/randomised enumeration on the real code and on the faithful model.',
+     ['C13_twice (a second merge of a different replica is a no-op) is stated but not proved; proved: the self-merge clause in full, component-level idempotence']),
     ('C14', 'Kernel-checked component theorems (history union is sorted, duplicate-free and contains both sides; last-writer-wins for entries and groups). '
             'The flat last-writer-wins reference (MergeSpec) is evaluated on the real result of every enumerated pair.',
      ['C14_refines (faithful model = flat reference for all replica pairs) is stated but not proved; the reference is evaluated as an oracle on every enumerated pair (a test)']),
     ('C15', 'Kernel-checked: tombstone list only grows (prefix), boundary deletion_time = mtime keeps the node; clauses (no resurrection, present xor tombstoned, '
             'deleted iff newer and empty) are evaluated on the real result of every enumerated pair.',
      ['group_deleted_iff for every tombstone order is validated by enumeration (both orders), not proved']),
-    ('C16', 'Kernel-checked: the repaired deletion queue terminates within the stated fuel on every input (no outOfFuel), structural termination of merge_group; '
-            'soundness clauses (unique UUIDs, nothing lost) are evaluated on the real result of every enumerated pair under a watchdog.',
-     ['uniqueUuids/conserved invariants of merge_group are validated by enumeration, not proved']),
+    ('C16', 'Kernel-checked: mergeDeletions_terminates — on a destination tree that is a group with pairwise distinct UUIDs, for every source, the work queue of merge_deletions '
+            '(the only unbounded loop of merge; a group is re-queued while a child group is still queued) never exhausts the fuel (queue length + 1)^2 + 1: some queue element is always '
+            'resolvable (a re-queued tombstone has a strictly deeper tombstoned node in the queue), rotations only permute the queue, removals keep UUIDs distinct. merge_group is structurally '
+            'recursive over the source tree and the pass loop is bounded by the number of groups. Soundness clauses (unique UUIDs, nothing lost) are evaluated on the real result of every enumerated pair under a watchdog.',
+     ['that the tree handed to merge_deletions still has pairwise distinct UUIDs after the group pass (uniqueUuids/conserved invariants of merge_group) is validated by enumeration, not proved']),
 ]:
     PROPS[pid] = {'ops': ['merge'], 'judge': make_merge_judge(pid), 'rule': MERGE_RULE, 'assumptions': MERGE_ASSUME,
                   'level_text': txt, 'partial': part, 'timeout': 3000, 'exhaustive': {'quick': False, 'thorough': False}}
